@@ -385,20 +385,15 @@ fn output_predicate_datavalue(
     } else {
         false
     };
+    // the predicate may be a key identifier as-is, write it with JSON string syntax
+    let predicate = serde_json::to_string(config.uri_to_namespace(predicate).as_ref())
+        .expect("a string can always be serialised to JSON");
     if value_is_iri {
         // Any String value that is a valid IRI *SHOULD* be interpreted as such
         // in conversion from/to RDF.
-        format!(
-            "\"{}\": {{ \"id\": \"{}\" }}",
-            config.uri_to_namespace(predicate),
-            datavalue
-        )
+        format!("{}: {{ \"id\": \"{}\" }}", predicate, datavalue)
     } else {
-        format!(
-            "\"{}\": {}",
-            config.uri_to_namespace(predicate),
-            &value_to_json(datavalue)
-        )
+        format!("{}: {}", predicate, &value_to_json(datavalue))
     }
 }
 
